@@ -306,15 +306,15 @@ Proof.
   bool_hyps. inversion Hp; subst ps'; clear Hp.
   cbn [phase_rel] in Ht. destruct Ht as ((past & Hl & Hnum & Hlen) & Hb & Hm).
   step_inv H; try congruence.
-  assert (l = past) by congruence. subst l.
-  refine (step_goal_test _ _ _ _ _ _ _ Hsim _ _ _ _ _); proj_simpl; auto.
-  - intros x Hx. apply lookup_update_neq; auto.
-  - cbn [phase_rel]. proj_simpl. split; [|split; auto; lia].
-    exists (past ++ [a]). rewrite (lookup_update_eq _ _ _ _ Heqo). split; auto.
-    rewrite numbered_from_app, Hnum, app_length. cbn [length andb]. split; [apply N.eqb_eq|]; lia.
-  - rewrite Eph. cbn [o_of_phase ocheck event_tid ostep]. rewrite N.eqb_refl.
-    decide_tests. reflexivity.
-  - tid_events.
+  all: assert (l = past) by congruence; subst l.
+  all: refine (step_goal_test _ _ _ _ _ _ _ Hsim _ _ _ _ _); proj_simpl; auto.
+  all: try (intros x Hx; apply lookup_update_neq; auto; fail).
+  all: try (tid_events; fail).
+  all: try (rewrite Eph; cbn [o_of_phase ocheck event_tid ostep]; rewrite N.eqb_refl;
+            decide_tests; reflexivity).
+  all: cbn [phase_rel]; proj_simpl; (split; [|split; auto; lia]);
+    exists (past ++ [a]); rewrite (lookup_update_eq _ _ _ _ Heqo); (split; auto);
+    rewrite numbered_from_app, Hnum, app_length; cbn [length andb]; (split; [apply N.eqb_eq|]; lia).
 Qed.
 
 Lemma sim_step_retry c d ps t no total s' evs rsp ps' :
@@ -1101,3 +1101,107 @@ Theorem exit_any_interleaving c mf dbg h p :
   interleaving_of_unit_traces c mf dbg h -> (shutdown_count h <= 2)%nat ->
   run_exit c mf dbg h p = Some (spec_exit c h p).
 Proof. intros H. apply run_exit_spec. apply interleaving_wf. exact H. Qed.
+
+(* ------------------------------------------------------------------ C10: no unit sits out a retry delay of a cancelled run *)
+
+Lemma pstep_enters_delay c ps e hs ps' t k :
+  pstep c ps e hs = Some ps' -> ps_phase ps' t = PDelay k ->
+  ps_phase ps t = PDelay k \/ exists a, e = AttemptFailedWillRetry t a.
+Proof.
+  intros Hp Hd.
+  destruct e; cbn [pstep] in Hp;
+    repeat match type of Hp with
+    | context [if ?b then _ else _] => destruct b eqn:?; try discriminate
+    | context [match ps_phase ps ?x with _ => _ end] => destruct (ps_phase ps x) eqn:?; try discriminate
+    | context [match hs with _ => _ end] => destruct hs; try discriminate
+    end; inversion Hp; subst; clear Hp; cbn [set_phase ps_phase] in Hd; auto;
+    match type of Hd with
+    | upd _ ?t0 _ _ = _ =>
+        destruct (N.eq_dec t t0) as [->|Hne];
+        [rewrite upd_eq in Hd; try discriminate; try (right; eauto; fail); try (left; congruence)
+        | rewrite upd_neq in Hd by auto; auto]
+    end.
+Qed.
+
+Definition prompt_inv (c : cfg) (y : sys) : Prop :=
+  match y_d y with
+  | Panicked => True
+  | Live d =>
+      sim c d (y_ps y) /\
+      (d_cancel d <> None -> forall t k, ps_phase (y_ps y) t = PDelay k -> 0 < y_mail y t)
+  end.
+
+Lemma prompt_inv_step c y x y' :
+  cfg_ok c = true -> prompt_inv c y -> sys_step true c y x = Some y' -> prompt_inv c y'.
+Proof.
+  intros Hok Hinv Hs. destruct y as [s ps m]. unfold prompt_inv in *. cbn [y_d y_ps y_mail] in *.
+  destruct x as [e|t]; cbn [sys_step y_d y_ps y_mail] in Hs.
+  - destruct s as [d|].
+    2: { cbn [dstep] in Hs. destruct (pstep c ps e _); [|discriminate]. inversion Hs; subst. exact I. }
+    destruct Hinv as [Hsim Hmail]. cbn [dstep] in Hs.
+    destruct (dstep_live d e) as [[s' evs] rsp] eqn:E.
+    destruct (pstep c ps e (r_hs rsp)) as [ps'|] eqn:Ep; [|discriminate].
+    inversion Hs; subst y'; clear Hs. cbn [y_d y_ps y_mail].
+    destruct s' as [d'|]; [|exact I].
+    (* the step does not panic, so it is not a third shutdown signal *)
+    assert (Hsig : ev_shutdown e = 1%nat -> d_sig d <> Some STwice).
+    { intros He Hd. destruct e; cbn in He; try discriminate.
+      rewrite (step_third_signal _ _ Hd) in E. discriminate. }
+    destruct (sim_step _ _ _ _ _ _ _ _ Hok Hsim E Ep Hsig) as (d1 & E1 & Hsim' & _).
+    inversion E1; subst d1. split; auto.
+    intros Hc' t k Hph. unfold deliver.
+    destruct (d_cancel d) as [cr|] eqn:Ecd.
+    + (* already being cancelled *)
+      destruct (pstep_enters_delay _ _ _ _ _ _ _ Ep Hph) as [Hold|[a ->]].
+      * assert (0 < m t) by (eapply Hmail; eauto; discriminate). lia.
+      * assert (Hu : r_unit rsp = Some t).
+        { apply (step_unicast_iff _ _ _ _ _ t E). exists a. repeat split; auto; try discriminate.
+          rewrite Ecd. discriminate. }
+        rewrite Hu. cbn [andb]. rewrite N.eqb_refl. lia.
+    + (* this step begins the cancellation: the broadcast reaches every unit in a delay *)
+      change (cancel_request (broadcast_of (r_resp rsp)))
+        with (cancel_broadcast (broadcast_of (r_resp rsp))).
+      rewrite (step_begins_cancel_broadcasts _ _ _ _ _ E Ecd Hc'). cbn [andb].
+      pose proof (sim_phase _ _ _ Hsim' t) as Hrel. rewrite Hph in Hrel. cbn [phase_rel] in Hrel.
+      destruct Hrel as ((past & Hl & _) & _). rewrite Hl. cbn [is_some]. lia.
+  - destruct (ps_phase ps t) eqn:Eph; try discriminate.
+    destruct (0 <? m t) eqn:Em; [|discriminate]. inversion Hs; subst y'; clear Hs.
+    cbn [y_d y_ps y_mail]. destruct s as [d|]; auto. destruct Hinv as [Hsim Hmail]. split; auto.
+    intros Hc x k' Hx. destruct (N.eqb_spec x t) as [->|Hne]; [congruence|]. eapply Hmail; eauto.
+Qed.
+
+Lemma prompt_inv_init c mf dbg : prompt_inv c (sys0 c mf dbg).
+Proof.
+  unfold prompt_inv, sys0. cbn [y_d y_ps y_mail]. split; [apply sim_init|].
+  intros _ t k H. cbn in H. discriminate.
+Qed.
+
+Lemma prompt_inv_run c xs : cfg_ok c = true -> forall y y',
+  prompt_inv c y -> sys_run true c y xs = Some y' -> prompt_inv c y'.
+Proof.
+  intros Hok. induction xs as [|x xs IH]; intros y y' Hinv Hr; cbn [sys_run] in Hr.
+  - inversion Hr; subst; auto.
+  - destruct (sys_step true c y x) as [y1|] eqn:E; [|discriminate].
+    eapply IH; [|exact Hr]. eapply prompt_inv_step; eauto.
+Qed.
+
+Theorem ends_promptly c mf dbg xs y :
+  cfg_ok c = true -> sys_run true c (sys0 c mf dbg) xs = Some y ->
+  forall t, stuck_in_delay y t = false.
+Proof.
+  intros Hok Hr t. pose proof (prompt_inv_run c xs Hok _ _ (prompt_inv_init c mf dbg) Hr) as Hinv.
+  unfold prompt_inv in Hinv. unfold stuck_in_delay. destruct (y_d y) as [d|]; auto.
+  destruct Hinv as [_ Hmail]. destruct (d_cancel d) eqn:Ec; cbn [is_some andb]; auto.
+  destruct (ps_phase (y_ps y) t) eqn:Eph; auto.
+  assert (0 < y_mail y t) by (eapply Hmail; eauto; discriminate).
+  apply N.eqb_neq. lia.
+Qed.
+
+(* the regression witness of finding F10: fail-fast cancels while test 1's first attempt is running;
+   the unit takes the OtherCancel off its channel and ignores it; the attempt then fails *)
+Definition f10_cfg : cfg := mk_cfg [0; 1] [] (fun t => if t =? 0 then 1 else 3) 0.
+Definition f10_witness : list sevent :=
+  [SEvent (Started 0); SEvent (Started 1);
+   SEvent (Finished 0 (mk_attempt (Fail None false) false 1 1));
+   SConsume 1;
+   SEvent (AttemptFailedWillRetry 1 (mk_attempt (Fail None false) false 1 3))].
